@@ -172,15 +172,50 @@ func generateUnit(hdir, scratch string, u *UnitSpec, tier string, seed int64) er
 	jb, _ := json.Marshal(batch)
 	jf := filepath.Join(udir, "jobs.json")
 	os.WriteFile(jf, jb, 0o644)
-	cmd := exec.Command(bin, jf)
-	cmd.Stderr = os.Stderr
-	out, err := cmd.Output()
-	if err != nil {
-		return fmt.Errorf("genrun failed: %v", err)
+	runOne := func(j job) genResult {
+		jb, _ := json.Marshal([]job{j})
+		jf := filepath.Join(udir, "job_"+j.Name+".json")
+		os.WriteFile(jf, jb, 0o644)
+		var stderr strings.Builder
+		cmd := exec.Command(bin, jf)
+		cmd.Stderr = &stderr
+		out, err := cmd.Output()
+		var one []genResult
+		if err != nil || json.Unmarshal(out, &one) != nil || len(one) != 1 {
+			msg := stderr.String()
+			if len(msg) > 300 {
+				msg = msg[:300]
+			}
+			return genResult{Name: j.Name, OK: false, Err: "PANIC: the generator process died (" + fmt.Sprint(err) + "): " + strings.ReplaceAll(msg, "\n", " | ")}
+		}
+		return one[0]
 	}
 	var batchRes []genResult
-	if err := json.Unmarshal(out, &batchRes); err != nil {
-		return fmt.Errorf("genrun output: %v", err)
+	var berr strings.Builder
+	cmd := exec.Command(bin, jf)
+	cmd.Stderr = &berr
+	out, err := cmd.Output()
+	if err == nil {
+		err = json.Unmarshal(out, &batchRes)
+	}
+	if err != nil {
+		// the batch process died (a fatal error such as stack exhaustion cannot be recovered in process): run every
+		// job in a process of its own to find the documents that kill the generator
+		fmt.Fprintf(os.Stderr, "genrun batch died (%v); re-running %d jobs in isolation\n", err, len(batch))
+		batchRes = make([]genResult, len(batch))
+		sem := make(chan struct{}, 12)
+		done := make(chan int)
+		for i := range batch {
+			go func(i int) {
+				sem <- struct{}{}
+				batchRes[i] = runOne(batch[i])
+				<-sem
+				done <- i
+			}(i)
+		}
+		for range batch {
+			<-done
+		}
 	}
 	results = append(results, batchRes...)
 	okPkg := map[string]bool{}
